@@ -209,6 +209,8 @@ struct World {
         int st; pid_t r = waitpid(p.realpid, &st, WNOHANG);
         if (r == p.realpid || (r == -1 && !proc_alive(p.realpid))) {
           if (__atomic_load_n(&s->state, __ATOMIC_SEQ_CST) == VK_S_REQ) break;
+          if (!san_log_prefix.empty()) {   // sanitised build: the sanitizer runtime ended the process itself (a report whose printing failed, exit instead of abort): a crash, not a harness problem
+            note("pid " + std::to_string(p.vpid) + " (" + p.name + ") was ended by the sanitizer runtime"); crash_report(p, 6); slot_used[p.slot] = false; proc_die(p, 6); return; }
           throw HarnessError{"simulated process " + p.name + " died outside the model (status " + std::to_string(r == p.realpid ? st : -1) + ")"};
         }
       }
@@ -447,6 +449,7 @@ struct World {
   void run_until_blocked(int vpid) { for (;;) { Proc *p = P(vpid); if (!p || p->st != P_PENDING || !enabled(*p) || aborted) return; step(*p); } }
 
   void step(Proc &p);
+  void crash_report(Proc &p, long sig);
   bool exec_op(Proc &p, Step &st, std::string &out, long *aout, long &ret, int &err);
   void machine_crash();
 };
